@@ -318,6 +318,10 @@ class Exec:
             if isinstance(lst, PList):
                 if not lst.items: raise Raised('IndexError')
                 return lst.items.pop(-1)
+            if isinstance(lst, Seq):
+                if not s.decide(cmp('>', lst.n, 0), node): raise Raised('IndexError')
+                lst.n = lst.n - 1
+                return Opaque("popped element")
             raise Unsupported("pop on %r" % lst, node)
         if name in ('extend', 'insert', 'remove', 'clear', 'sort', 'reverse'):
             s.note_write(lst, name)
@@ -472,9 +476,11 @@ class Exec:
         for a in assigned - tgt:
             if a in env: raise Unsupported("generic loop rebinds outer variable %s (not a recurrence over lists)" % a, st, path)
         init = {}
-        for L in grown:
+        for L in list(grown):
             v = env.get(L)
-            if not isinstance(v, PList): raise Unsupported("list %s appended in a generic loop is not a concrete-prefix list" % L, st, path)
+            if not isinstance(v, PList):
+                grown.remove(L)            # e.g. a precomputed series: an append on it (if it is ever executed) is rejected at that point
+                continue
             init[L] = v
         if not s.decide(cmp('>', n, 0), st):
             s.loops.append(dict(kind='recurrence-skipped', node=st, n=n)); return       # zero iterations: lists keep their prefix
@@ -489,7 +495,10 @@ class Exec:
         for L in grown:
             g = env[L]
             if g.init and g.app and not same_shape(g.init[0], g.app[0]):
-                raise Unsupported("element shape of %s changes between prefix and loop body" % L, st, path)
+                if s.contracts.get('__allow_shape_change__'):
+                    s.notes.append(dict(shape_change=L, prefix=repr(g.init[0])[:120], body=repr(g.app[0])[:120]))
+                else:
+                    raise Unsupported("element shape of %s changes between prefix and loop body" % L, st, path)
             for a in g.app[1:]:
                 if not same_shape(g.app[0], a): raise Unsupported("element shape of %s differs between appends" % L, st, path)
             env[L] = Post(L, len(g.init), n, len(g.app), g, owner=g.owner)
@@ -1108,7 +1117,7 @@ def _ext(name):
 
 NUMPY = {'exp': _vecmap(_exp1), 'log': _vecmap(_log1), 'sqrt': _vecmap(_sqrt1), 'array': _np_array,
          'multiply': _np_bin(ast.Mult), 'subtract': _np_bin(ast.Sub), 'divide': _np_bin(ast.Div), 'add': _np_bin(ast.Add),
-         'power': _np_power, 'sum': _np_sum, 'ones': _np_ones, 'vstack': _np_vstack}
+         'power': _np_power, 'sum': _np_sum, 'ones': _np_ones, 'vstack': _np_vstack, 'searchsorted': lambda s, *a, **k: _ext('numpy.searchsorted')(s, *a, **k)}
 
 
 def _len(s, x):
